@@ -243,14 +243,30 @@ def bounds6(r):
     return sorted({l, -1 if l < 0 else 2, 0, 1, h, h // 2 + 1})
 
 
-FKEY = [0, 1, 2, 3, 4, 5, 6, 10, 14, 16, 17, 18]    # +0 -0 +inf -inf qNaN -qNaN sNaN denorm_min max 1 -1 1+ulp
-FKEY8 = [0, 1, 2, 4, 6, 10, 14, 16]
+# indices into SPECIAL[r] (same layout for the three formats): 0 +0, 1 -0, 2 +inf, 3 -inf, 4 qNaN, 5 -qNaN, 6 sNaN(payload),
+# 7 -sNaN, 8 qNaN(payload), 9 all-ones NaN, 10 denorm_min, 11 -denorm_min, 12 largest denormal, 13 smallest normal, 14 max,
+# 15 lowest (= -max), 16 1.0, 17 -1.0, 18 1+ulp.  Every class of the statement's quantifier (+-0, +-inf, quiet / signalling NaN
+# with payloads, subnormals, min / max / lowest, -1) is in the permanent grids below; nothing here is seed-sampled.
+FKEY = [0, 1, 2, 3, 4, 5, 6, 8, 10, 13, 14, 15, 16, 17, 18]
+FKEY_MIXED = [0, 1, 2, 3, 4, 6, 10, 14, 15, 16, 17]
+FKEY_SIX = [0, 1, 2, 4, 6, 10, 14, 16]
+
+
+def bounds_mixed(r):
+    """Key values of an integral rep used against an operand of ANOTHER type: the limits (which fall outside a narrower
+    partner's range, change sign in an unsigned partner, or are the minimum of the promoted type), -1, 0, 1, 2, -2, a value
+    whose double leaves the rep (hi//2+1) and the neighbours of the limits."""
+    l, h = lo(r), hi(r)
+    s = {l, l + 1, -2, -1, 0, 1, 2, h - 1, h, h // 2 + 1}
+    return sorted(v for v in s if l <= v <= h)
 
 
 def keys(r, size):
     if is_int(r):
-        return {"full": bounds, "small": bounds_small, "six": bounds6}[size](r)
-    return [SPECIAL[r][i] for i in (FKEY if size in ("full", "small") else FKEY8)]
+        return {"full": bounds, "small": bounds_small, "six": bounds6, "mixed": bounds_mixed}[size](r)
+    if size == "all":
+        return list(SPECIAL[r])
+    return [SPECIAL[r][i] for i in (FKEY if size in ("full", "small") else (FKEY_MIXED if size == "mixed" else FKEY_SIX))]
 
 
 def directed_points(op, R, T, level):
@@ -263,7 +279,7 @@ def directed_points(op, R, T, level):
     if is_int(R) and BITS[R] == 8 and is_int(tb) and BITS[tb] == 8:
         return [(lo(R), lo(R) if op in ("pos", "neg") else lo(tb)), (hi(R), hi(R) if op in ("pos", "neg") else hi(tb))]   # swept exhaustively anyway
     if op in ("pos", "neg"):
-        return [(a, a) for a in keys(R, "full")]
+        return [(a, a) for a in keys(R, "full" if is_int(R) else "all")]      # floats: every special value of the table
     if R == tb:
         big = keys(R, "full" if level == "main" else "small")
         small = keys(R, "small" if level == "main" else "six")
@@ -277,7 +293,16 @@ def directed_points(op, R, T, level):
             if is_int(R):
                 pts += [(a, b) for a in small for b in big]
         return list(dict.fromkeys(pts))
-    return [(a, b) for a in keys(R, "six") for b in keys(tb, "six")]
+    # operands of different types
+    if level != "main":
+        return [(a, b) for a in keys(R, "six") for b in keys(tb, "six")]
+    ka = keys(R, "six") if (is_int(R) and not is_int(tb)) else keys(R, "mixed")
+    kb = keys(tb, "six" if is_int(tb) else "mixed")
+    pts = [(a, b) for a in ka for b in kb]
+    if is_int(R) and is_int(tb):
+        extra_b = [v for v in (2, -2, hi(tb) - 1, lo(tb) + 1) if lo(tb) <= v <= hi(tb)]
+        pts += [(a, b) for a in keys(R, "six") for b in extra_b]
+    return list(dict.fromkeys(pts))
 
 
 def random_points(rng, op, R, T, n):
@@ -585,8 +610,7 @@ def all_combos():
                 out.append({"op": op, "R": r, "T": t, "ul": 0})
                 if t == r and op != "divl":
                     out.append({"op": op, "R": r, "T": t, "ul": 1})
-            if is_int(r) and is_int(t) or (r, t) in (("f64", "i32"), ("i32", "f64"), ("f32", "f32"), ("f64", "f64"), ("f80", "f80")):
-                out.append({"op": "divl", "R": r, "T": t, "ul": 1})
+            out.append({"op": "divl", "R": r, "T": t, "ul": 1})      # every (rep, scalar) pair, not a hand-picked list
     return out
 
 
@@ -658,6 +682,19 @@ NEG_DIAG = {
 }
 
 
+def permanent_gate_pair(r, t):
+    """(R, T) pairs probed in every run for the two documented gates: R integral with T floating (shorthand gate): each
+    integral R with one floating T, cycling so that each floating T occurs; R, T integral (integer-division gate): the
+    diagonal plus the extreme width / signedness mixes."""
+    ints = [x for x in REPS if is_int(x)]
+    flts = [x for x in REPS if not is_int(x)]
+    if is_int(r) and not is_int(t):
+        return flts[ints.index(r) % len(flts)] == t
+    if is_int(r) and is_int(t):
+        return r == t or (r, t) in (("i8", "u64"), ("u64", "i8"), ("i32", "u32"), ("u32", "i32"), ("i16", "i64"), ("u8", "i8"))
+    return False
+
+
 def reject_reason(c):
     op, r, t = c["op"], c["R"], c["T"]
     if op in ("mod", "pos", "neg") and is_int(r):
@@ -695,7 +732,9 @@ def explore_ops(wd, drv, configs, rng, tier, seed, stats, viol, samples, distinc
     nrand = 1 if tier == "quick" else 8
     # main configurations: full grid (the smaller grid for the unitless-unit twins of the same operators); extra
     # configurations (the other language standards): the smaller grid, for the same-type operators and the T == R scalar ones
-    dmain = {key(c): directed_points(c["op"], c["R"], c["T"], "main" if not c["ul"] or c["op"] == "divl" else "extra") for c in combos}
+    dmain = {key(c): directed_points(c["op"], c["R"], c["T"],
+                                     "main" if not c["ul"] or (c["op"] == "divl" and is_int(c["R"]) and is_int(c["T"])) else "extra")
+             for c in combos}
     dextra = {key(c): (directed_points(c["op"], c["R"], c["T"], "extra") if (c["T"] == c["R"] and not c["ul"]) else []) for c in combos}
     rnd = {key(c): random_points(rng, c["op"], c["R"], c["T"], nrand) for c in combos}
     pts = {k: list(dict.fromkeys(dmain[k] + dextra[k] + rnd[k])) for k in dmain}     # everything the model is asked about
@@ -781,7 +820,8 @@ def explore_ops(wd, drv, configs, rng, tier, seed, stats, viol, samples, distinc
             if kind == "C":
                 stats["op_constexpr_checks"] += int(r.get("n", 0))
                 if r.get("bad") != "0":
-                    viol.append({"what": f"inside constant expressions an operator of Quantity<{'UnitProductT<>' if c['ul'] else unit}, {c['R']}> (operands 7 and 3) differs from "
+                    viol.append({"what": f"inside constant expressions an operator of Quantity<{'UnitProductT<>' if c['ul'] else unit}, {c['R']}> (operand pairs (7,3): "
+                                         f"{r.get('bad0')} bad, (max/2,2): {r.get('bad1')} bad, (lowest/2+1,2): {r.get('bad2')} bad) differs from "
                                          f"the built-in operator in value or type ({r.get('bad')} of {r.get('n')} expressions) [{cfg}]",
                                  "class": f"constexpr-{c['R']}", "rec": dict(base, kind="constexpr", a=7, b=3, impl=ans)})
                 continue
@@ -919,7 +959,16 @@ def explore_ops(wd, drv, configs, rng, tier, seed, stats, viol, samples, distinc
         chosen = []
         for reason, cs in sorted(by_reason.items()):
             rng.shuffle(cs)
-            chosen += cs if (reason == "narrowing" or tier == "thorough") else cs[:(4 if role == "main" else 1)]
+            if reason in ("narrowing", "modfloat") or tier == "thorough":
+                chosen += cs
+            elif role == "main":
+                # permanent list: every integral rep and every scalar type occurs in a rejected combination of each gate and each
+                # operator of the gate (a guard dropped for one rep or one scalar type only is seen in every run) + a sampled rest
+                perm = [c for c in cs if not c["ul"] and permanent_gate_pair(c["R"], c["T"])]
+                rest = [c for c in cs if c not in perm]
+                chosen += perm + rest[:4]
+            else:
+                chosen += cs[:1]
         if tier == "thorough":
             chosen = chosen[:160]
 
@@ -971,12 +1020,30 @@ def observe(obs, key, example, count=1):
     e["count"] += count
 
 
+RT_PERMANENT_UNITS = [("Meters", "au::Meters", "meters.hh"), ("Celsius", "au::Celsius", "celsius.hh"),
+                      ("Percent", "au::Percent", "percent.hh"), ("unitless", "au::UnitProductT<>", "meters.hh")]
+
+
 def explore_rt(wd, drv, configs, rng, tier, stats, viol, samples, distinct):
+    """Round trips for a seed-chosen library unit on every configuration, and — on the two main configurations, with the
+    special values, the constexpr checks and the exhaustive 8/16-bit sweeps — for a permanent list of units of different
+    kinds (a base unit, a unit with an origin, a scaled dimensionless unit, the unitless unit)."""
     units = library_units()
     unit, header = rng.choice(units)
     stats["rt_unit"] = unit
-    src = H.RT.replace("@UNIT_INCLUDES@", unit_header_includes([header])).replace("@UNIT@", "au::" + unit).replace("@CPU_LIMIT@", str(CPU_LIMIT))
-    p = os.path.join(wd, "rt.cc")
+    stats.update({"rt_singles": 0, "rt_patterns": 0, "rt_all_float_configs": []})
+    explore_rt_unit(wd, drv, configs, rng, tier, stats, viol, samples, distinct, unit, "au::" + unit, header, False)
+    stats["rt_permanent_units"] = []
+    for (un, ut, hd) in RT_PERMANENT_UNITS:
+        if un == unit:
+            continue
+        stats["rt_permanent_units"].append(un)
+        explore_rt_unit(wd, drv, [c for c in configs if c[3] == "main"][:2], rng, tier, stats, viol, samples, distinct, un, ut, hd, True)
+
+
+def explore_rt_unit(wd, drv, configs, rng, tier, stats, viol, samples, distinct, unit, utype, header, light):
+    src = H.RT.replace("@UNIT_INCLUDES@", unit_header_includes([header])).replace("@UNIT@", utype).replace("@CPU_LIMIT@", str(CPU_LIMIT))
+    p = os.path.join(wd, f"rt_{unit}.cc")
     open(p, "w").write(src)
     singles = []
     for r in REPS:
@@ -986,7 +1053,6 @@ def explore_rt(wd, drv, configs, rng, tier, stats, viol, samples, distinct):
             vals = SPECIAL[r] + [rand_float_bits(rng, r) for _ in range(8)]
         singles += [(r, v) for v in dict.fromkeys(vals)]
     mans = drv.ask([f"c13 rt {r} {fmt_val(r, v)}" for r, v in singles])
-    stats.update({"rt_singles": 0, "rt_patterns": 0, "rt_all_float_configs": []})
     obs = stats.setdefault("observations", {})
     obs["_note"] = ("out of scope of C13, never reported: QuantityPoint::in(same unit) computes (x_ + ZERO) and a rep_cast, so for "
                     "floating reps unit_pt(x).in(unit_pt) turns -0.0 into +0.0 and quiets signalling NaNs")
@@ -994,7 +1060,7 @@ def explore_rt(wd, drv, configs, rng, tier, stats, viol, samples, distinct):
     icount = 100_000 if tier == "quick" else 1_000_000
     def build(j):
         compiler, std, tag, _role = j
-        exe = os.path.join(wd, f"rt_{tag}")
+        exe = os.path.join(wd, f"rt_{unit}_{tag}")
         rc, out = cxx(p, exe, compiler=compiler, std=std, extra=no_uio(compiler))
         return tag, (exe, rc, out)
     builds = dict(pmap(build, configs))
@@ -1017,12 +1083,12 @@ def explore_rt(wd, drv, configs, rng, tier, stats, viol, samples, distinct):
             lines.append(f"K {r}")
             meta.append(("K", r, None))
         for r in REPS:
-            n = counts.get(r, icount) if role == "main" else 20_000
-            per = 8 if (not is_int(r) and role == "main") else 1
+            n = counts.get(r, icount) if (role == "main" and not light) else 20_000
+            per = 8 if (not is_int(r) and role == "main" and not light) else 1
             for k in range(per):
                 lines.append(f"N {r} {n // per} {rng.getrandbits(63)}")
                 meta.append(("N", r, None))
-        full = tier == "thorough" and (compiler, std) in (("g++", "c++14"), ("clang++-14", "c++17"), ("exact", "c++14"))
+        full = tier == "thorough" and not light and (compiler, std) in (("g++", "c++14"), ("clang++-14", "c++17"), ("exact", "c++14"))
         if full:
             for s in range(64):
                 lines.append(f"F {s} 64")
@@ -1059,8 +1125,9 @@ def explore_rt(wd, drv, configs, rng, tier, stats, viol, samples, distinct):
                          "q8": "in(Kilo<Milli<U>>{})", "q9": "const copy .in(unit)"}
                 badf = [f"{forms[k2]} = {d.get(k2)}" for k2 in forms if d.get(k2) != x]
                 if badf:
-                    viol.append({"what": f"the Quantity round trip does not return x bit-for-bit for {r} x={x}: " + "; ".join(badf[:4]),
-                                 "class": f"q-roundtrip-{r}", "rec": {"kind": "q-roundtrip", "R": r, "x": x, "config": cfg, "impl": ans}})
+                    viol.append({"what": f"the Quantity round trip (unit {unit}) does not return x bit-for-bit for {r} x={x}: " + "; ".join(badf[:4]),
+                                 "class": f"q-roundtrip-{r}", "rec": {"kind": "q-roundtrip", "R": r, "x": x, "config": cfg, "impl": ans, "unit": unit, "unit_type": utype,
+                                                                       "unit_header": header}})
                 if m["q"] != d["q"]:
                     viol.append({"what": "model and implementation differ on the Quantity round trip", "class": "corr-rt", "no_input": True,
                                  "broken": "correspondence: Au.C13.qRoundTrip", "rec": {"kind": "corr-rt", "R": r, "x": x, "impl": ans, "model": m}})
@@ -1074,8 +1141,9 @@ def explore_rt(wd, drv, configs, rng, tier, stats, viol, samples, distinct):
                 n = int(d["n"])
                 stats["rt_patterns"] += n
                 if int(d["qbad"]):
-                    viol.append({"what": f"unit(x).in(unit) does not return x bit-for-bit for {r} x={d['qfirst']} ({d['qbad']} of {n} patterns)",
-                                 "class": f"q-roundtrip-{r}", "rec": {"kind": "q-roundtrip", "R": r, "x": d["qfirst"], "config": cfg, "impl": ans}})
+                    viol.append({"what": f"unit(x).in(unit) (unit {unit}) does not return x bit-for-bit for {r} x={d['qfirst']} ({d['qbad']} of {n} patterns)",
+                                 "class": f"q-roundtrip-{r}", "rec": {"kind": "q-roundtrip", "R": r, "x": d["qfirst"], "config": cfg, "impl": ans,
+                                                                       "unit": unit, "unit_type": utype, "unit_header": header}})
                 if int(d["pdiff"]):
                     for k2, name in (("pneg0", "neg0"), ("pnan", "nan"), ("pother", "other")):
                         if int(d[k2]):
@@ -1262,7 +1330,8 @@ def replay(path):
                                                  and not (is_nan_bits(t.get("qty", ""), p["q"]) and is_nan_bits(t.get("rty", ""), p["r"]))):
                 bad = True
     elif kind in ("q-roundtrip", "pt-roundtrip", "corr-rt", "corr-ptrt"):
-        src = H.RT.replace("@UNIT_INCLUDES@", unit_header_includes([header])).replace("@UNIT@", "au::" + unit).replace("@CPU_LIMIT@", str(CPU_LIMIT))
+        src = H.RT.replace("@UNIT_INCLUDES@", unit_header_includes([r.get("unit_header", header)])) \
+            .replace("@UNIT@", r.get("unit_type", "au::" + unit)).replace("@CPU_LIMIT@", str(CPU_LIMIT))
         p = os.path.join(wd, "rt.cc")
         open(p, "w").write(src)
         exe = os.path.join(wd, "rt")
